@@ -306,6 +306,15 @@ def snapshot_sampler_class(base):
             if hasattr(self, "current_momentum") and self.current_momentum is not None:
                 pre["p0"] = np.array(self.current_momentum, dtype=float).copy()
                 pre["p1"] = np.array(self.proposed_momentum, dtype=float).copy()
+                kin = getattr(self, "_v_kinetic", None)
+                if kin is not None:
+                    # the kinetic energies under the mass matrix as it is at the acceptance test (an adaptive metric changes during the trajectory)
+                    with np.errstate(all="ignore"):
+                        try:
+                            pre["k0_at_test"] = float(kin(pre["p0"].copy()))
+                            pre["k1_at_test"] = float(kin(pre["p1"].copy()))
+                        except Exception:
+                            pass
             r = super()._evaluate_acceptance()
             post = {
                 "model": np.array(self.current_model, dtype=float).copy(),
